@@ -211,7 +211,7 @@ func removeMetricsSegmentsByList(metricsMetaFile string, metricsSegmentsToDelete
 			log.Errorf("removeMetricsSegmentsByList: Failed to remove directory name=%v, err:%v",
 				metricSegmentMeta.MSegmentDir, err)
 		}
-		fileutils.RecursivelyDeleteEmptyParentDirectories(dir)
+		deleteEmptyParentDirectories(dir)
 
 		if _, ok := tagsTreeToDelete[metricSegmentMeta.TTreeDir]; !ok {
 			tagsTreeToDelete[metricSegmentMeta.TTreeDir] = true
@@ -232,7 +232,7 @@ func removeMetricsSegmentsByList(metricsMetaFile string, metricsSegmentsToDelete
 		if err := os.RemoveAll(ttreeDir); err != nil {
 			log.Errorf("removeMetricsSegmentsByList: Failed to remove tags tree directory=%v, err:%v", ttreeDir, err)
 		}
-		fileutils.RecursivelyDeleteEmptyParentDirectories(dir)
+		deleteEmptyParentDirectories(dir)
 	}
 	if entriesRemoved > 0 {
 		// if we removed entries and there was nothing preserved then we must delete this metrics meta file
@@ -270,4 +270,21 @@ func removeMetricsSegmentsByList(metricsMetaFile string, metricsSegmentsToDelete
 			}
 		}
 	}
+}
+
+// Deletes the parent directories of dir that have become empty. dir itself and some of its
+// parents may already be gone, removed by an earlier call that did not get to finish; the
+// search for empty parents then starts at the first parent that still exists.
+func deleteEmptyParentDirectories(dir string) {
+	for {
+		parent := path.Dir(dir)
+		if parent == dir {
+			return
+		}
+		if _, err := os.Stat(parent); !os.IsNotExist(err) {
+			break
+		}
+		dir = parent
+	}
+	fileutils.RecursivelyDeleteEmptyParentDirectories(dir)
 }
